@@ -45,7 +45,8 @@ def _cfg(shape, sim=False, depth=160, maxdup=4, invs=None):
              "  PermuteLists = %s" % ("TRUE" if (sim or shape.get("perm")) else "FALSE"),
              "  AtomicGossip = %s" % ("TRUE" if shape.get("ag") else "FALSE"),
              "  AtomicExec = %s" % ("TRUE" if shape.get("ae") else "FALSE"),
-             "  MaxDrop = %d" % shape.get("drop", 0)]
+             "  MaxDrop = %d" % shape.get("drop", 0),
+             "  DropKinds = {%s}" % ", ".join('"%s"' % k for k in shape.get("cover", ("D", "R", "J")))]
     if sim:
         lines += ["  Depth = %d" % depth, "  MaxDup = %d" % maxdup,
                   "  ShiftRanks = %s" % ("TRUE" if shape.get("shift") else "FALSE")]
@@ -69,9 +70,9 @@ LATE3 = dict(name="late3", n=3, epoch=1, join=[1, 2, 3], leader=1, thr=2, late=[
 # one bundle lost on one directed link (only the echo can heal it); the joiner's key sorts before
 # some member, so that indices in the old and the new group differ
 ADDDROP = dict(name="adddrop", n=4, epoch=2, join=[4], remain=[1, 2, 3], leader=2, thr=3, prevThr=2, ag=True,
-               drop=1, shift=True, cover=("D", "R"), simnum=400)
+               drop=1, shift=True, cover=("D", "R"), simnum=400, tmin=TMIN, tmax=TMIN)
 LATE4DROP = dict(name="late4drop", n=4, epoch=1, join=[1, 2, 3, 4], leader=1, thr=3, late=[2], ag=True,
-                 drop=1, cover=("J",), simnum=600)
+                 drop=1, cover=("J",), simnum=200, tmin=TMIN, tmax=TMIN)
 LATE4 = dict(name="late4", n=4, epoch=1, join=[1, 2, 3, 4], leader=1, thr=3, late=[2])
 
 
@@ -268,7 +269,7 @@ def _walk_results(ctx, shapes, res):
             if cover:
                 # one walk per lost link: every directed link of the covered bundle kinds, up to `num`
                 d = [(o["kind"], o["origin"], o["to"]) for o in obj["hist"] if o.get("name") == "BDrop"]
-                if not d or d[0][0] not in cover or d[0] in links or k >= num:
+                if not d or d[0][0] not in cover or d[0] in links or k >= num or d[0][2] in shape.get("late", []):
                     continue
                 links.add(d[0])
             elif k >= num:
@@ -295,9 +296,9 @@ def run(ctx, monitors):
                   (ADD5, 2, 480), (REMOVE, 4, 220), (SWAP, 4, 220), (LATE3, 4, 170), (LATE4, 3, 300),
                   (_with(RESHARE3, name="reshare3atomic", ag=True, ae=True), 8, 40),
                   (_with(ADD, name="addatomic", ag=True, ae=True), 6, 40),
-                  (_with(ADDDROP, simnum=800), 21, 150), (_with(LATE4DROP, simnum=600), 6, 170),
-                  (_with(SWAP, name="swapdrop", ag=True, drop=1, cover=("D", "R"), simnum=500), 8, 150),
-                  (_with(FIRST4, name="first4drop", ag=True, drop=1, cover=("D", "R"), simnum=400), 6, 150)]
+                  (_with(ADDDROP, simnum=800), 21, 150), (_with(LATE4DROP, simnum=500), 6, 170),
+                  (_with(SWAP, name="swapdrop", ag=True, drop=1, cover=("D", "R"), simnum=500, tmin=TMIN, tmax=TMIN), 8, 150),
+                  (_with(FIRST4, name="first4drop", ag=True, drop=1, cover=("D", "R"), simnum=400, tmin=TMIN, tmax=TMIN), 6, 150)]
     # 1. design level (exhaustive) and 2. behaviour generation run side by side, while the test
     #    binary is built from the current tree
     jobs, dthunks = _design_jobs(ctx)
